@@ -431,6 +431,6 @@ mod tests {
 }
 
 #[cfg(kani)]
-mod verif {
+pub(crate) mod verif {
     include!(concat!(env!("PROFIRUST_VERIF_HARNESS"), "/fdl_token_ring.rs"));
 }
